@@ -273,16 +273,19 @@ fn native_hostname(vm: &mut VM, _args: &[Value]) -> Result<Value, RuntimeError> 
         return make_string(vm, &hostname);
     }
 
-    // Fall back to reading /etc/hostname on Unix
+    // Ask the kernel on Unix (no file is opened: sys is available without the fs capability)
     #[cfg(unix)]
     {
-        if let Ok(hostname) = std::fs::read_to_string("/etc/hostname") {
-            return make_string(vm, hostname.trim());
-        }
-
-        // Try reading from /proc/sys/kernel/hostname
-        if let Ok(hostname) = std::fs::read_to_string("/proc/sys/kernel/hostname") {
-            return make_string(vm, hostname.trim());
+        let mut buf = [0u8; 256];
+        // SAFETY: buf is valid for buf.len() bytes and outlives the call
+        let rc = unsafe { libc::gethostname(buf.as_mut_ptr() as *mut libc::c_char, buf.len()) };
+        if rc == 0 {
+            let end = buf.iter().position(|&b| b == 0).unwrap_or(buf.len());
+            if let Ok(hostname) = std::str::from_utf8(&buf[..end])
+                && !hostname.is_empty()
+            {
+                return make_string(vm, hostname);
+            }
         }
     }
 
